@@ -240,6 +240,10 @@ pub fn run_prop<P: Prop>(p: &P, tier: Tier, seed: u64) -> i32 {
         return 2;
     }
 
+    if let Err(e) = crate::model::calendar::self_check() {
+        eprintln!("MACHINERY: calendar model self-check failed: {}", e);
+        return 2;
+    }
     let mut families = p.families(tier);
     if let Ok(only) = std::env::var("VERIF_FAMILY") {
         // debugging aid only: restrict to some families (never used by registered commands)
@@ -266,29 +270,17 @@ pub fn run_prop<P: Prop>(p: &P, tier: Tier, seed: u64) -> i32 {
             println!("  case did not return within 30 s: {}", what);
             std::process::exit(1);
         },
+        |v| findings.iter().find(|f| matches_finding(p, f, v)).map(|f| f.id.clone()),
     );
 
-    // ---- triage ----
+    // ---- triage (known findings were matched when each violation was found) ----
     let mut known_hits: BTreeMap<String, (u64, String)> = BTreeMap::new();
-    let mut unknown: Vec<&Violation<P::Case>> = Vec::new();
-    for v in stats.violations.iter() {
-        let mut hit = None;
-        for f in findings.iter() {
-            if matches_finding(p, f, v) {
-                hit = Some(f);
-                break;
-            }
-        }
-        match hit {
-            Some(f) => {
-                let e = known_hits.entry(f.id.clone()).or_insert((0, f.what.clone()));
-                e.0 += 1;
-            }
-            None => unknown.push(v),
-        }
+    for (fid, n) in stats.known.iter() {
+        let what = findings.iter().find(|f| &f.id == fid).map(|f| f.what.clone()).unwrap_or_default();
+        known_hits.insert(fid.clone(), (*n, what));
     }
-    let stored = stats.violations.len() as u64;
-    let unstored = stats.violations_total.saturating_sub(stored);
+    let unknown: Vec<&Violation<P::Case>> = stats.violations.iter().collect();
+    let unknown_total = stats.unknown_total;
 
     // ---- confirm unknown violations on a fresh calculator, twice ----
     let mut machinery_error = false;
@@ -319,14 +311,24 @@ pub fn run_prop<P: Prop>(p: &P, tier: Tier, seed: u64) -> i32 {
         println!("  observed: {}", v.verdict.observed);
         reported += 1;
     }
-    if unknown.len() > reported {
-        println!("  ... {} further unlisted violations stored ({} total violations incl. known)", unknown.len() - reported, stats.violations_total);
+    // full list of unlisted violations of this run for triage (inputs only, one per line)
+    {
+        let dir = verif_dir().join("replays");
+        let _ = std::fs::create_dir_all(&dir);
+        let mut all = String::new();
+        for v in unknown.iter() {
+            all.push_str(&format!("{}\t{}\t{}\t{}\t{}\n", v.family, v.verdict.input.replace('\n', "\\n"), v.verdict.violation.clone().unwrap_or_default(), v.verdict.observed.replace('\n', "\\n"), v.verdict.expected.replace('\n', "\\n")));
+        }
+        let _ = std::fs::write(dir.join(format!("run-{}-all.tsv", id)), all);
     }
-    if unstored > 0 && !unknown.is_empty() {
-        println!("  ... {} violations beyond the storage cap were not triaged", unstored);
+    if unknown_total as usize > reported {
+        println!("  ... {} unlisted violations in total, by kind (family|site|what):", unknown_total);
+        for (sig, n) in stats.buckets.iter() {
+            println!("      {:>8}  {}", n, sig);
+        }
     }
     for (fid, (n, what)) in known_hits.iter() {
-        println!("KNOWN-FINDING: property={} {} [{}; {} stored cases]", id, what, fid, n);
+        println!("KNOWN-FINDING: property={} {} [{}; {} cases]", id, what, fid, n);
     }
 
     // ---- vacuity guard ----
@@ -335,12 +337,7 @@ pub fn run_prop<P: Prop>(p: &P, tier: Tier, seed: u64) -> i32 {
         eprintln!("MACHINERY: vacuous run ({} executions, {} distinct outcomes)", total_exec, stats.distinct_outcomes);
         machinery_error = true;
     }
-    // if the storage cap was hit and everything stored was a known finding we cannot be sure the
-    // rest is known as well: say so loudly (counts as a cap, not as a verdict)
-    let mut caps = stats.caps_hit.clone();
-    if unstored > 0 {
-        caps.push(format!("{} violations beyond the storage cap of {} were counted but not triaged individually", unstored, explore::MAX_STORED_VIOLATIONS));
-    }
+    let caps = stats.caps_hit.clone();
 
     // ---- evidence ----
     let states: u64 = stats.families.iter().map(|f| f.states).sum();
@@ -365,7 +362,7 @@ pub fn run_prop<P: Prop>(p: &P, tier: Tier, seed: u64) -> i32 {
         "seed": seed,
         "level": "model_checking",
         "wall_s": seam::real_now() - t0,
-        "violations": unknown.len(),
+        "violations": unknown_total,
         "coverage": {
             "states": states.max(1),
             "transitions": transitions.max(1),
@@ -384,7 +381,8 @@ pub fn run_prop<P: Prop>(p: &P, tier: Tier, seed: u64) -> i32 {
             "oracle_classes": stats.classes,
             "calculators_built": stats.calculators_built,
             "caps_hit": caps,
-            "known_findings_hit": known_hits.iter().map(|(k, (n, _))| serde_json::json!({"id": k, "stored_cases": n})).collect::<Vec<_>>(),
+            "known_findings_hit": known_hits.iter().map(|(k, (n, _))| serde_json::json!({"id": k, "cases": n})).collect::<Vec<_>>(),
+            "unlisted_violation_kinds": stats.buckets,
             "violations_total_incl_known": stats.violations_total,
             "threads": explore::threads(),
             "samples": samples,
@@ -410,8 +408,8 @@ pub fn run_prop<P: Prop>(p: &P, tier: Tier, seed: u64) -> i32 {
         stats.compared,
         stats.distinct_compared,
         stats.distinct_outcomes,
-        unknown.len(),
-        stats.violations_total - unknown.len() as u64,
+        unknown_total,
+        stats.violations_total - unknown_total,
         exhaustive,
         seam::real_now() - t0
     );
@@ -423,7 +421,7 @@ pub fn run_prop<P: Prop>(p: &P, tier: Tier, seed: u64) -> i32 {
     if machinery_error {
         return 2;
     }
-    if !unknown.is_empty() {
+    if unknown_total > 0 {
         return 1;
     }
     0
